@@ -534,6 +534,123 @@ func typeTableGrounds(pk *packages.Package) []Ground {
 		}
 		out = append(out, Ground{Name: name + "/goTypes[i-th Go type == i-th declaration]", OK: okAll, Detail: detail,
 			Text: fmt.Sprintf("%s_goTypes lists the %d enums and %d messages of the file in protobuf-go's flattened declaration order", base, len(enums), len(msgs))})
+		// dependency index table: the k-th type reference of the file (message fields in flattened declaration order, then
+		// method input types, then method output types) must point at the goTypes entry of the type it names
+		{
+			var enumFull, msgFull []string
+			var walkE func(prefix string, m *descriptorpb.DescriptorProto)
+			walkE = func(prefix string, m *descriptorpb.DescriptorProto) {
+				for _, e := range m.EnumType {
+					enumFull = append(enumFull, prefix+m.GetName()+"."+e.GetName())
+				}
+				for _, n := range m.NestedType {
+					walkE(prefix+m.GetName()+".", n)
+				}
+			}
+			pkgPrefix := ""
+			if fd.GetPackage() != "" {
+				pkgPrefix = fd.GetPackage() + "."
+			}
+			for _, e := range fd.EnumType {
+				enumFull = append(enumFull, pkgPrefix+e.GetName())
+			}
+			for _, m := range fd.MessageType {
+				walkE(pkgPrefix, m)
+			}
+			type mref struct {
+				full string
+				m    *descriptorpb.DescriptorProto
+			}
+			var flat []mref
+			var walkM func(prefix string, m *descriptorpb.DescriptorProto)
+			walkM = func(prefix string, m *descriptorpb.DescriptorProto) {
+				for _, n := range m.NestedType {
+					flat = append(flat, mref{prefix + m.GetName() + "." + n.GetName(), n})
+				}
+				for _, n := range m.NestedType {
+					walkM(prefix+m.GetName()+".", n)
+				}
+			}
+			for _, m := range fd.MessageType {
+				flat = append(flat, mref{pkgPrefix + m.GetName(), m})
+			}
+			for _, m := range fd.MessageType {
+				walkM(pkgPrefix, m)
+			}
+			for _, m := range flat {
+				msgFull = append(msgFull, m.full)
+			}
+			local := map[string]int{}
+			for i, n := range enumFull {
+				local[n] = i
+			}
+			for i, n := range msgFull {
+				local[n] = len(enumFull) + i
+			}
+			var want []string
+			for _, m := range flat {
+				for _, f := range m.m.Field {
+					if f.GetTypeName() != "" {
+						want = append(want, strings.TrimPrefix(f.GetTypeName(), "."))
+					}
+				}
+			}
+			nFieldRefs := len(want)
+			for _, sv := range fd.Service {
+				for _, mt := range sv.Method {
+					want = append(want, strings.TrimPrefix(mt.GetInputType(), "."))
+				}
+			}
+			for _, sv := range fd.Service {
+				for _, mt := range sv.Method {
+					want = append(want, strings.TrimPrefix(mt.GetOutputType(), "."))
+				}
+			}
+			hasExt := len(fd.Extension) > 0
+			for _, m := range flat {
+				hasExt = hasExt || len(m.m.Extension) > 0
+			}
+			var dlit *ast.CompositeLit
+			for _, f := range pk.Syntax {
+				for _, d := range f.Decls {
+					if gd, ok := d.(*ast.GenDecl); ok {
+						for _, sp := range gd.Specs {
+							if vs, ok := sp.(*ast.ValueSpec); ok && len(vs.Names) == 1 && vs.Names[0].Name == base+"_depIdxs" && len(vs.Values) == 1 {
+								dlit, _ = vs.Values[0].(*ast.CompositeLit)
+							}
+						}
+					}
+				}
+			}
+			okDeps, det := dlit != nil && !hasExt && len(dlit.Elts) == len(want)+5, ""
+			if dlit == nil {
+				det = base + "_depIdxs not found"
+			} else if hasExt {
+				okDeps, det = true, "file declares extensions: table layout not checked"
+			} else if len(dlit.Elts) != len(want)+5 {
+				det = fmt.Sprintf("%d entries, %d type references + 5 offsets expected", len(dlit.Elts), len(want))
+			}
+			for k := 0; okDeps && !hasExt && k < len(want); k++ {
+				bl, isLit := dlit.Elts[k].(*ast.BasicLit)
+				if !isLit {
+					okDeps, det = false, "non-literal entry"
+					break
+				}
+				got, _ := strconv.Atoi(bl.Value)
+				if li, isLocal := local[want[k]]; isLocal {
+					if got != li {
+						okDeps = false
+						det = fmt.Sprintf("reference %d (%s) points at goTypes[%d], its type is goTypes[%d]", k, want[k], got, li)
+					}
+				} else if got < len(enumFull)+len(msgFull) {
+					okDeps = false
+					det = fmt.Sprintf("reference %d names the imported type %s but points at the local declaration goTypes[%d]", k, want[k], got)
+				}
+			}
+			_ = nFieldRefs
+			out = append(out, Ground{Name: name + "/depIdxs[every type reference points at its own type]", OK: okDeps, Detail: det,
+				Text: fmt.Sprintf("%s_depIdxs resolves the %d field, method-input and method-output type references of the file, in declaration order, to the goTypes entries of the types they name", base, len(want))})
+		}
 		// enumTypes index used by every enum type's Descriptor() and Type()
 		eidx := map[string]int{}
 		for i, en := range enums {
@@ -656,4 +773,37 @@ func methodsTableGrounds(ms *MsgSchema) []Ground {
 	out = append(out, Ground{Name: name + "/table[flags]", OK: flags == "protoiface.SupportMarshalDeterministic | protoiface.SupportUnmarshalDiscardUnknown", Detail: flags,
 		Text: "the table advertises exactly SupportMarshalDeterministic | SupportUnmarshalDiscardUnknown"})
 	return out
+}
+
+// stringMethodGround (C19): String() of a generated message is exactly protobuf-go's text rendering of the message
+// (`return protoimpl.X.MessageStringOf(x)`), with nothing done to the text afterwards: that rendering is what
+// prototext parses back to an equal message (protobuf-go, trusted).
+func stringMethodGround(ms *MsgSchema) Ground {
+	name := shortPkg(ms.Pkg.PkgPath) + "." + ms.Name + ".String/is-the-library-rendering"
+	fd := findMethod(ms.Pkg, ms.Name, "String")
+	g := Ground{Name: name, Text: "String() returns protoimpl.X.MessageStringOf(x) unchanged"}
+	if fd == nil || fd.Body == nil || len(fd.Body.List) != 1 {
+		g.Detail = "String() is not a single return statement"
+		return g
+	}
+	rs, ok := fd.Body.List[0].(*ast.ReturnStmt)
+	if !ok || len(rs.Results) != 1 {
+		g.Detail = "String() is not a single return statement"
+		return g
+	}
+	call, ok := rs.Results[0].(*ast.CallExpr)
+	if !ok || len(call.Args) != 1 || types.ExprString(call.Fun) != "protoimpl.X.MessageStringOf" {
+		g.Detail = "returns " + types.ExprString(rs.Results[0])
+		return g
+	}
+	recvName := ""
+	if len(fd.Recv.List[0].Names) > 0 {
+		recvName = fd.Recv.List[0].Names[0].Name
+	}
+	if id, ok := call.Args[0].(*ast.Ident); !ok || id.Name != recvName {
+		g.Detail = "renders " + types.ExprString(call.Args[0]) + ", not the receiver"
+		return g
+	}
+	g.OK = true
+	return g
 }
